@@ -415,38 +415,81 @@ structure SortKey where
 def flipOrd : Ordering → Ordering
   | .lt => .gt | .gt => .lt | .eq => .eq
 
-/-- `compare_values` of sort.rs: kinds that do not compare are "equal" -/
+/-- magnitude of a non-NaN double in units of 2^-1074 (an infinity counts as 2^4000) -/
+def fnumMag (b : Nat) : Nat := if expField b = 2047 then 2 ^ 4000 else scaledMag b
+
+/-- exact value of a non-NaN double in units of 2^-1074 (±infinity = ±2^4000) -/
+def fnum (b : Nat) : Int := if signBit b = 1 then -(fnumMag b : Int) else (fnumMag b : Int)
+
+/-- one unit: 1.0 in units of 2^-1074 -/
+def unit : Int := 2 ^ 1074
+
+/-- `compare_floats`: `partial_cmp`, and where that has no answer NaN after everything else -/
+def cmpFloats (a b : Nat) : Ordering :=
+  match partialCmp a b with
+  | some o => o
+  | none => compare (isNaN a).toNat (isNaN b).toNat
+
+/-- `compare_int_float`: an integer against a float by their exact values. `f >= 2^63` and
+`f < -2^63` are decided first, so that `f.trunc() as i64` is exact; `f - whole` is exact too. -/
+def cmpIntFloat (i : Int) (f : Nat) : Ordering :=
+  if isNaN f then .lt
+  else if fnum f ≥ 2 ^ 63 * unit then .lt
+  else if fnum f < -(2 ^ 63 * unit) then .gt
+  else
+    let whole := Int.tdiv (fnum f) unit
+    let frac := fnum f - whole * unit
+    if i < whole then .lt else if whole < i then .gt
+    else if 0 < frac then .lt else if frac < 0 then .gt else .eq
+
+/-- `kind_rank` (NULL never gets here: `compare_values_with_nulls` places it) -/
+def kindRank : Val → Nat
+  | .str _ => 1
+  | .bool _ => 2
+  | .int _ => 3
+  | .flt _ => 3
+  | .null => 0
+
+/-- `compare_values` of sort.rs (repaired code): a total preorder over all values — strings
+before booleans before numbers, integers and floats by exact value, NaN after every number -/
 def sortCmpVals : Val → Val → Ordering
   | .bool a, .bool b => compare a.toNat b.toNat
   | .int a, .int b => compare a b
-  | .flt a, .flt b => (partialCmp a b).getD .eq
+  | .flt a, .flt b => cmpFloats a b
   | .str a, .str b => cmpBytes a b
-  | .int a, .flt b => (partialCmp (i64ToF64 a) b).getD .eq
-  | .flt a, .int b => (partialCmp a (i64ToF64 b)).getD .eq
-  | _, _ => .eq
+  | .int a, .flt b => cmpIntFloat a b
+  | .flt a, .int b => flipOrd (cmpIntFloat b a)
+  | a, b => compare (kindRank a) (kindRank b)
 
-/-- `compare_values_with_nulls` on the two column values (a column the chunk does not have gives
-`None`, which is ordered like NULL) -/
-def cmpWithNulls (nullsFirst : Bool) : Option Val → Option Val → Ordering
+/-- `compare_values_with_nulls` over a value comparison `cmpv` (a column the chunk does not have
+gives `None`, which is ordered like NULL) -/
+def nullsCmp (cmpv : Val → Val → Ordering) (nullsFirst : Bool) : Option Val → Option Val → Ordering
   | none, none => .eq
   | some .null, some .null => .eq
   | none, _ => if nullsFirst then .lt else .gt
   | some .null, _ => if nullsFirst then .lt else .gt
   | _, none => if nullsFirst then .gt else .lt
   | _, some .null => if nullsFirst then .gt else .lt
-  | some x, some y => sortCmpVals x y
+  | some x, some y => cmpv x y
 
-def keyCmp (k : SortKey) (a b : Row) : Ordering :=
-  let o := cmpWithNulls k.nullsFirst a[k.col]? b[k.col]?
+def keyCmpBy (cmpv : Val → Val → Ordering) (k : SortKey) (a b : Row) : Ordering :=
+  let o := nullsCmp cmpv k.nullsFirst a[k.col]? b[k.col]?
   if k.asc then o else flipOrd o
 
-/-- the closure handed to `sort_by` -/
-def cmpRows : List SortKey → Row → Row → Ordering
+/-- the closure handed to `sort_by`: the keys in turn -/
+def cmpRowsBy (cmpv : Val → Val → Ordering) : List SortKey → Row → Row → Ordering
   | [], _, _ => .eq
-  | k :: ks, a, b => if keyCmp k a b = .eq then cmpRows ks a b else keyCmp k a b
+  | k :: ks, a, b => if keyCmpBy cmpv k a b = .eq then cmpRowsBy cmpv ks a b else keyCmpBy cmpv k a b
 
 /-- `slice::sort_by` is a stable sort: `a` stays before `b` unless `a > b` -/
-def rowLe (keys : List SortKey) (a b : Row) : Bool := cmpRows keys a b != .gt
+def rowLeBy (cmpv : Val → Val → Ordering) (keys : List SortKey) (a b : Row) : Bool :=
+  cmpRowsBy cmpv keys a b != .gt
+
+def cmpWithNulls := nullsCmp sortCmpVals
+def keyCmp := keyCmpBy sortCmpVals
+def cmpRows := cmpRowsBy sortCmpVals
+/-- the engine's row order -/
+def rowLe := rowLeBy sortCmpVals
 
 /-- `SortOperator::next` / output loop: `size` rows per chunk -/
 def rechunk {α : Type} (size : Nat) : Nat → List α → List (List α)
@@ -459,74 +502,51 @@ def rechunkAll {α : Type} (size : Nat) (rows : List α) : List (List α) := rec
 def sortOp (cap : Nat) (keys : List SortKey) (cs : List (List Row)) : List (List Row) :=
   rechunkAll cap (cs.flatten.mergeSort (rowLe keys))
 
-/-! ### where the sort comparator is a total preorder -/
+/-! ### the specification's order of all values -/
 
-/-- kind of a value as the sort comparator sees it: 0 NULL, 1 boolean, 2 string, 3 integer,
-5 float that is not NaN, 6 NaN -/
-def kind1 : Val → Nat
-  | .null => 0
-  | .bool _ => 1
-  | .str _ => 2
-  | .int _ => 3
-  | .flt b => if isNaN b then 6 else 5
+/-- rank of a value in the specification's order (ascending: strings, booleans, numbers by
+exact value, NaN after every number) -/
+def specRank : Val → Nat × Int × List Nat
+  | .null => (4, 0, [])
+  | .str s => (0, 0, s)
+  | .bool b => (1, if b then 1 else 0, [])
+  | .int i => (2, i * unit, [])
+  | .flt b => if isNaN b then (3, 0, []) else (2, fnum b, [])
 
-/-- every row has the column and holds NULL or a value of kind `K` there -/
-def uniformCol (K : Nat) (col : Nat) (rows : List Row) : Bool :=
-  rows.all (fun r =>
-    match r[col]? with
-    | some v => kind1 v == 0 || kind1 v == K
-    | none => false)
+def specCmpVals (a b : Val) : Ordering :=
+  let x := specRank a
+  let y := specRank b
+  if x.1 < y.1 then .lt else if y.1 < x.1 then .gt
+  else if x.2.1 < y.2.1 then .lt else if y.2.1 < x.2.1 then .gt
+  else cmpBytes x.2.2 y.2.2
 
-/-- no row has the column (the key compares "equal" throughout) -/
-def absentCol (col : Nat) (rows : List Row) : Bool := rows.all (fun r => r[col]?.isNone)
+def specCmpWithNulls := nullsCmp specCmpVals
+def specKeyCmp := keyCmpBy specCmpVals
+def specCmpRows := cmpRowsBy specCmpVals
+def specRowLe := rowLeBy specCmpVals
 
-/-- the key under which an integer is compared with floats: `i as f64`, as an ordered key -/
-def convKey (a : Int) : Int := key (i64ToF64 a)
+/-- an `i64` (the model's integers are unbounded; the engine's are not) -/
+def Val.inRange : Val → Bool
+  | .int i => decide (i64Min ≤ i ∧ i ≤ i64Max)
+  | _ => true
 
-def dedupInts : List Int → List Int
-  | [] => []
-  | a :: as => if a ∈ dedupInts as then dedupInts as else a :: dedupInts as
+/-! ### the comparator before the repair "ORDER BY compares with a total order" -/
 
-def colInts (col : Nat) (rows : List Row) : List Int :=
-  dedupInts (rows.filterMap (fun (r : Row) => match r[col]? with | some (Val.int a) => some a | _ => none))
+namespace Old
 
-/-- `i as f64` keeps the integers in `ints` apart and in order (it does for |i| ≤ 2^53; beyond,
-neighbours collapse) -/
-def convMonotone (ints : List Int) : Bool :=
-  let ks := ints.map (fun a => (a, convKey a, isNaN (i64ToF64 a)))
-  ks.all (fun x => !x.2.2 && ks.all (fun y => !(x.1 < y.1) || x.2.1 < y.2.1))
+/-- `compare_values` of sort.rs as it was: kinds that do not compare are "equal", NaN is "equal"
+to every number, an integer meets a float through `as f64` -/
+def sortCmpVals : Val → Val → Ordering
+  | .bool a, .bool b => compare a.toNat b.toNat
+  | .int a, .int b => compare a b
+  | .flt a, .flt b => (partialCmp a b).getD .eq
+  | .str a, .str b => cmpBytes a b
+  | .int a, .flt b => (partialCmp (i64ToF64 a) b).getD .eq
+  | .flt a, .int b => (partialCmp a (i64ToF64 b)).getD .eq
+  | _, _ => .eq
 
-/-- a numeric column: NULLs, integers and non-NaN floats, the integers present converting to
-floats without collapsing -/
-def numericCol (col : Nat) (rows : List Row) : Bool :=
-  rows.all (fun r =>
-    match r[col]? with
-    | some .null => true
-    | some (.int _) => true
-    | some (.flt b) => !isNaN b
-    | _ => false) && convMonotone (colInts col rows)
-
-/-- the condition under which the comparator of `sort.rs` is a total preorder on the rows: every
-key column is absent, or of one kind (booleans, strings, integers, non-NaN floats, NaNs — plus
-NULLs), or numeric with exactly ordered conversions. Decidable on the table. -/
-def orderedKeys (keys : List SortKey) (rows : List Row) : Bool :=
-  keys.all (fun k => absentCol k.col rows || [1, 2, 3, 5, 6].any (fun K => uniformCol K k.col rows) ||
-    numericCol k.col rows)
-
-/-- comparison class of a value, for naming what went wrong: 0 NULL, 1 boolean, 2 string, 3 integer
-with |i| ≤ 2^53, 4 other integer, 5 float that is not NaN, 6 NaN -/
-def vclass : Val → Nat
-  | .null => 0
-  | .bool _ => 1
-  | .str _ => 2
-  | .int i => if -(2 ^ 53) ≤ i ∧ i ≤ 2 ^ 53 then 3 else 4
-  | .flt b => if isNaN b then 6 else 5
-
-def insertNat (x : Nat) (l : List Nat) : List Nat := if l.contains x then l else x :: l
-
-def colVals (col : Nat) (rows : List Row) : List Val := rows.map (fun r => r[col]?.getD .null)
-
-/-! ### what `sort_by` does when the comparator is not a total preorder, and the specification -/
+def cmpRows := cmpRowsBy sortCmpVals
+def rowLe := rowLeBy sortCmpVals
 
 /-- `insertion_sort_shift_left` of `core::slice::sort` — the whole of the stable `sort_by` for
 slices of at most 20 elements: every element in turn moves left past the elements it is
@@ -537,50 +557,12 @@ def insRight {α : Type} (lt : α → α → Bool) (x : α) (l : List α) : List
 def insSort {α : Type} (lt : α → α → Bool) (l : List α) : List α :=
   l.foldl (fun acc x => insRight lt x acc) []
 
-/-- rank of a value in the specification's order of all values (ascending: strings, booleans,
-numbers by exact value, NaN after every number) -/
-def specRank : Val → Nat × Int × List Nat
-  | .null => (4, 0, [])
-  | .str s => (0, 0, s)
-  | .bool b => (1, if b then 1 else 0, [])
-  | .int i => (2, i * 2 ^ 1074, [])
-  | .flt b =>
-    if isNaN b then (3, 0, [])
-    else if expField b = 2047 then (2, if signBit b = 1 then -(2 ^ 4000) else 2 ^ 4000, [])
-    else (2, scaled b, [])
+/-- what `sort_by` left of at most 20 rows, whatever the comparator (beyond 20 rows an
+inconsistent comparator could make it panic) -/
+def sortSmall (keys : List SortKey) (rows : List Row) : List Row :=
+  insSort (fun a b => cmpRows keys a b == .lt) rows
 
-def specCmpVals (a b : Val) : Ordering :=
-  let x := specRank a
-  let y := specRank b
-  if x.1 < y.1 then .lt else if y.1 < x.1 then .gt
-  else if x.2.1 < y.2.1 then .lt else if y.2.1 < x.2.1 then .gt
-  else cmpBytes x.2.2 y.2.2
-
-def specCmpWithNulls (nullsFirst : Bool) : Option Val → Option Val → Ordering
-  | none, none => .eq
-  | some .null, some .null => .eq
-  | none, _ => if nullsFirst then .lt else .gt
-  | some .null, _ => if nullsFirst then .lt else .gt
-  | _, none => if nullsFirst then .gt else .lt
-  | _, some .null => if nullsFirst then .gt else .lt
-  | some x, some y => specCmpVals x y
-
-def specKeyCmp (k : SortKey) (a b : Row) : Ordering :=
-  let o := specCmpWithNulls k.nullsFirst a[k.col]? b[k.col]?
-  if k.asc then o else flipOrd o
-
-def specCmpRows : List SortKey → Row → Row → Ordering
-  | [], _, _ => .eq
-  | k :: ks, a, b => if specKeyCmp k a b = .eq then specCmpRows ks a b else specKeyCmp k a b
-
-def specRowLe (keys : List SortKey) (a b : Row) : Bool := specCmpRows keys a b != .gt
-
-/-- the rows as `sort_by` leaves them: the stable sort where the comparator is a total preorder;
-the insertion sort for at most 20 rows; otherwise nothing is promised (`none`) -/
-def sortRows (keys : List SortKey) (rows : List Row) : Option (List Row) :=
-  if orderedKeys keys rows then some (rows.mergeSort (rowLe keys))
-  else if rows.length ≤ 20 then some (insSort (fun a b => cmpRows keys a b == .lt) rows)
-  else none
+end Old
 
 /-! ## D. `aggregate.rs`: `count(*)`, `count(col)` without GROUP BY -/
 
